@@ -105,6 +105,33 @@ fn main() {
             }
         }
     }
+    // split (disconnected) diagrams: disjoint unions of small pieces with shifted labels — the number of circles of a state can then
+    // exceed (number of crossings + 1); the Jones polynomial of a split union is (q + 1/q) · product of the pieces
+    {
+        let pieces: Vec<(&str, Pd)> = vec![("kink+", vec![[0, 0, 1, 1]]), ("kink-", vec![[0, 1, 1, 0]]), ("kink-b", vec![[1, 0, 0, 1]]),
+            ("hopf", pd_of(&Link::hopf_link())), ("trefoil", pd_of(&Link::trefoil())), ("figure8", pd_of(&Link::figure8()))];
+        for _ in 0..(if thorough { 60 } else { 14 }) {
+            let k = 2 + r.below(3) as usize;
+            let mut pd: Pd = vec![];
+            let mut names = vec![];
+            let mut off = 0usize;
+            for _ in 0..k {
+                let (nm, p) = r.pick(&pieces).clone();
+                let mut q = p.clone();
+                if r.bool() { if let Some(x) = add_kink(&mut r, &q) { q = x; } }
+                let mx = q.iter().flat_map(|c| c.iter()).cloned().max().unwrap_or(0);
+                pd.extend(q.iter().map(|c| c.map(|e| e + off)));
+                off += mx + 1;
+                names.push(nm);
+            }
+            if pd.len() > js_max { continue }
+            if r.bool() { pd = reorder(&mut r, &pd); }
+            let l = link_of(&pd);
+            let name = format!("split:{}", names.join("+"));
+            s.count("split-diagram");
+            let _ = base_case(&mut s, &name, &l, l.crossing_num() <= kh_max);
+        }
+    }
     // braid words and Markov / braid moves
     for _ in 0..(if thorough { 600 } else { 100 }) {
         let strands = 2 + r.below(4) as usize;
